@@ -98,6 +98,20 @@ def main(argv):
     assert tier in ("quick", "thorough"), tier
     seed = int(os.environ.get("VERIF_SEED", "1") or 1)
     t0 = time.time()
+    cap = float(os.environ.get("VERIF_WALL_CAP_S", "900" if tier == "quick" else "14400"))
+
+    def _on_alarm(signum, frame):
+        # a hang in the code under test (e.g. while replaying a regression input in this process) must end the check
+        print(f"HARNESS-ERROR wall-clock cap of {cap:.0f}s reached in the main process (inconclusive: the code under test may hang)")
+        sys.stdout.flush()
+        for child in mp.active_children():
+            child.kill()
+        os._exit(2)
+
+    import signal
+
+    signal.signal(signal.SIGALRM, _on_alarm)
+    signal.alarm(int(cap) + 20)
     mod = importlib.import_module(f"vp.props.{prop.lower()}")
 
     violations: list[tuple[str, str]] = []  # (bucket, replay path)
@@ -236,6 +250,9 @@ def main(argv):
         p = _write_replay(prop, b, case, detail, {"seed": seed, "tier": tier, "shard": f["shard"], "hits": fail_buckets[b]})
         violations.append((b, p))
 
+    if not samples:
+        # every explored case failed (or none qualified as a clean sample): show failing cases instead
+        samples = [{"failing_case": f["case"]} for f in list(first_fail.values())[:5]] or [{"note": "no case qualified as a sample"}]
     wall = time.time() - t0
     rule = mod.RULE
     cov = {
@@ -268,9 +285,10 @@ def main(argv):
     ev = json.loads(json.dumps(ev, default=repr))
     try:
         _validate_evidence(ev)
-    except Exception as e:  # schema problem is a harness problem
+    except Exception as e:  # schema problem is a harness problem -- but never at the price of hiding a violation
         print("HARNESS-ERROR evidence does not validate:", str(e)[:500])
-        return 2
+        if not violations:
+            return 2
     os.makedirs(os.path.join(core.OUT, "evidence"), exist_ok=True)
     with open(os.path.join(core.OUT, "evidence", f"{prop}.json"), "w") as f:
         json.dump(ev, f, indent=1, sort_keys=True)
